@@ -111,6 +111,7 @@ func genC07Op(sc *Scenario, r *engine.PRNG, cfg world.InstCfg, types []string, f
 			return op, false
 		}
 		op.Data = d
+		foreignWriter(r, &op)
 		if r.Intn(4) == 0 && len(d) >= 4 {
 			// another caller's record arrives damaged (torn or one byte rotten): the
 			// call must still behave as it does alone, and must not disturb the others
